@@ -14,7 +14,7 @@ def idx_set(n, rng):
 def name_variants(names, rng):
     out = [b'', b'nope', b'NOPE ']
     for n in names[:4]:
-        out += [n, n + b' ', n + b'  ', n.upper(), n.lower(), n.swapcase(), b' ' + n, n[:-1] if n else b'x']
+        out += [n, n + b' ', n + b'  ', n.upper(), n.lower(), n.swapcase(), b' ' + n, n[:-1] if n else b'x', n + b'\t', n + b'\n']
     return out
 
 def build_case(rng, cid):
@@ -53,9 +53,13 @@ def add_gets(lines, snap, rng):
     for i in idx_set(18, rng): g.append('get.evt 0 %d' % i); g.append('get.evl 0 %d' % i)
     for i in idx_set(9, rng): g.append('get.evd 0 %d' % i)
     for how in ('ctor', 'setter'):
-        for n in (b'abc', b'abc ', b'abc   ', b' abc', b' ', b''):
+        # only the blank (0x20) is trimmed: a tab, a line feed, a carriage return, a NUL at the end belong to the name
+        for n in (b'abc', b'abc ', b'abc   ', b' abc', b' ', b'', b'abc\t', b'abc\n', b'abc\r ', b'abc\t  ', b'abc \t', b'ab\x0b', b'ab\x0c ', b'a\x00 '):
             g.append('mk.point %s %s %s' % (how, hx(n), hx(n.rstrip(b' '))))
             g.append('mk.chan %s %s %s' % (how, hx(n), hx(n.rstrip(b' '))))
+            if n.rstrip(b' ') != n.rstrip():      # the over-trimmed name must NOT be found
+                g.append('mk.point %s %s %s' % (how, hx(n), hx(n.rstrip())))
+                g.append('mk.chan %s %s %s' % (how, hx(n), hx(n.rstrip())))
     return g
 
 def expect(ln, snap):
@@ -108,7 +112,8 @@ def expect(ln, snap):
     if c == 'get.evd': v = at(snap.h['evdisp'], int(t[2])); return OOR if v is None else 'ok %d' % v
     if c == 'get.evl': v = at(snap.h['evlab'], int(t[2])); return OOR if v is None else 'ok ' + hx(v)
     if c in ('mk.point', 'mk.chan'):
-        return 'ok 0 ' + hx(harness.unhx(t[2]).rstrip(b' '))
+        stored = harness.unhx(t[2]).rstrip(b' ')
+        return ('ok 0 ' + hx(stored)) if harness.unhx(t[3]) == stored else 'throw invalid_argument'
     return None
 
 def run(rep, work, rng, tier):
@@ -148,7 +153,7 @@ def run(rep, work, rng, tier):
     # whatever was looked up before and wherever
     ndup = 0
     for i in range(n):
-        base = [b'HEAD', b'LASI', b'RASI', b'X', b'x', b'X ']
+        base = [b'HEAD', b'LASI', b'RASI', b'X', b'x', b'X ', b'X\t', b'LASI\n', b'X\t ']
         conts = []
         for _ in range(rng.choice([1, 2, 3])):
             k = rng.choice([1, 2, 3, 4, 6]); conts.append([rng.choice(base) for _ in range(k)])
@@ -157,12 +162,29 @@ def run(rep, work, rng, tier):
             ci = rng.randrange(len(conts)); qs.append((ci, rng.choice(conts[ci] + [b'NOPE'])))
         line = ' '.join([str(len(conts))] + ['%d %s' % (len(cn), ' '.join(hx(x) for x in cn)) for cn in conts] + [str(len(qs))] + ['%d %s' % (ci, hx(q)) for ci, q in qs])
         cases.append(('dup%d' % i, ['mk.pts ' + line, 'mk.chs ' + line])); ndup += 1
+        # the same containers with elements RENAMED IN PLACE between look-ups (point_nonConst(j).name(..)): a look-up answers
+        # for the names the elements carry NOW — an earlier element renamed to a name found before wins from then on
+        ops = []
+        for _ in range(rng.choice([4, 8, 12])):
+            ci = rng.randrange(len(conts))
+            if rng.random() < 0.4:
+                j = rng.randrange(len(conts[ci]) + 1)
+                ops.append(('r', ci, j, rng.choice(conts[ci] + base[:5])))
+            else: ops.append(('q', ci, rng.choice(conts[ci] + [b'NOPE'])))
+        # the sharpest sequence, always present: find a name at position i > 0, rename an EARLIER element to it, ask again
+        big = [k for k, cn in enumerate(conts) if len(cn) >= 2]
+        if big:
+            ci = rng.choice(big); i2 = rng.randrange(1, len(conts[ci])); nm = b'UNIQ%d' % i
+            ops += [('r', ci, i2, nm), ('q', ci, nm), ('r', ci, rng.randrange(i2), nm + (b' ' if rng.random() < 0.3 else b'')), ('q', ci, nm)]
+        rline = ' '.join([str(len(conts))] + ['%d %s' % (len(cn), ' '.join(hx(x) for x in cn)) for cn in conts] + [str(len(ops))] +
+                         [('r %d %d %s' % (o[1], o[2], hx(o[3]))) if o[0] == 'r' else ('q %d %s' % (o[1], hx(o[2]))) for o in ops])
+        cases.append(('ren%d' % i, ['mk.ptsr ' + rline, 'mk.chsr ' + rline]))
     sel = lambda ln: ln.startswith('get.') or ln.startswith('mk.') or ln.startswith('P.as')
     (c, _), (m, _), nd = common.correspondence(rep, work, cases, select=sel, label='look-ups')
     # oracle for the repeated-name containers: index of the FIRST element whose (trimmed) name is the (exact) query
     dupbad = 0
     for cid, lines in cases:
-        if not cid.startswith('dup'): continue
+        if not (cid.startswith('dup') or cid.startswith('ren')): continue
         cl, cs = c.get(cid, ([], 'missing'))
         for ln, out in harness.split_ops(lines, cl):
             t = ln.split(' '); i = 1; nc = int(t[i]); i += 1; conts = []
@@ -170,6 +192,13 @@ def run(rep, work, rng, tier):
                 k = int(t[i]); i += 1; conts.append([harness.unhx(x).rstrip(b' ') for x in t[i:i + k]]); i += k
             nq = int(t[i]); i += 1; exp = ['ok']
             for _ in range(nq):
+                if cid.startswith('ren'):
+                    what = t[i]; i += 1
+                    if what == 'r':
+                        ci = int(t[i]); j = int(t[i + 1]); nm = harness.unhx(t[i + 2]).rstrip(b' '); i += 3
+                        if j < len(conts[ci]): conts[ci][j] = nm; exp.append('r')
+                        else: exp.append('o')
+                        continue
                 ci = int(t[i]); q = harness.unhx(t[i + 1]); i += 2
                 idx = next((j for j, nm in enumerate(conts[ci]) if nm == q), None)
                 exp.append('x' if idx is None else '%d:%d' % (idx, idx))
@@ -209,7 +238,7 @@ def run(rep, work, rng, tier):
             got = out[0] if out else '<none:%s>' % cs
             oc = got.split(' ')[0] + (' ' + got.split(' ')[1] if got.startswith('throw') else '')
             outcomes[oc] = outcomes.get(oc, 0) + 1
-            if cid.startswith('reg') or cid.startswith('dup'): continue
+            if cid.startswith('reg') or cid.startswith('dup') or cid.startswith('ren'): continue
             e = expect(ln, snaps[cid])
             if e is None: continue
             ok = got.startswith(e[1]) if isinstance(e, tuple) else got == e
